@@ -226,11 +226,179 @@ Section StatsEq.
   Qed.
 End StatsEq.
 
+(* ---- record ---- *)
+Definition nondict (kv : name * value) : bool := negb (is_dictb (snd kv)).
+
+Lemma dict_filter_scalars infos : dict_filter (fun _ v => negb (is_dictb v)) infos = inject (scalars infos).
+Proof.
+  unfold dict_filter, inject, scalars. induction infos as [|[k [z|d]] r IH]; cbn; auto. now rewrite IH.
+Qed.
+Lemma to_entry_filter infos : to_entry (filter nondict infos) = Some (scalars infos).
+Proof.
+  unfold scalars. induction infos as [|[k [z|d]] r IH]; cbn; auto. now rewrite IH.
+Qed.
+Lemma to_entry_inject e : to_entry (inject e) = Some e.
+Proof. unfold inject. induction e as [|[k z] r IH]; cbn; auto. now rewrite IH. Qed.
+Lemma dict_del_app {V} k (v : V) pre r :
+  ~ In k (map fst pre) -> dict_del k (pre ++ (k, v) :: r) = Some (pre ++ r).
+Proof.
+  induction pre as [|[k' v'] p IH]; cbn; intro N; [now rewrite Z.eqb_refl|].
+  destruct (k =? k') eqn:E; [exfalso; apply N; left; lia|]. rewrite IH; auto.
+Qed.
+
+Definition failed {X} (r : lb * res X) : Prop := exists l e, r = (l, Err e).
+
+(* the loop of record over a snapshot of the items, deleting the dictionary-valued keys from infos on the way:
+   generic in the loop body, which is only required to behave like "skip" on scalars and like
+   "record into the chapter, then del infos[key]" on dictionaries *)
+Lemma record_loop_del (body : name * value -> dict -> M lb dict) (rc : dict -> M lb unit) :
+  (forall k z cur l, body (k, VInt z) cur l = (l, Ok cur)) ->
+  (forall k d cur l, body (k, VDict d) cur l = bind (in_chapter k (rc d)) (fun _ => dict_delM k cur) l) ->
+  forall its pre l, NoDup (map fst (pre ++ its)) ->
+    match record_loop (fun d c => opt_of (rc d c)) its (chs l) with
+    | Some cs' => forM its body (pre ++ its) l =
+                  (LB (recs l) (buff l) cs' (hdr l) (logh l), Ok (pre ++ filter nondict its))
+    | None => failed (forM its body (pre ++ its) l)
+    end.
+Proof.
+  intros HI HD. induction its as [|[k [z|d]] r IH]; intros pre l ND.
+  - cbn. destruct l; now rewrite app_nil_r.
+  - cbn [record_loop forM]. unfold bind. rewrite !HI.
+    specialize (IH (pre ++ [(k, VInt z)]) l). rewrite <- app_assoc in IH. cbn [app] in IH.
+    specialize (IH ND). destruct (record_loop _ r (chs l)); auto.
+    rewrite IH. cbn [filter nondict snd is_dictb negb]. now rewrite <- app_assoc.
+  - cbn [record_loop forM]. unfold bind. rewrite !HD. unfold bind, in_chapter.
+    destruct (rc d (chapter_of k (chs l))) as [c' [u|e]]; cbn [opt_of].
+    + unfold dict_delM. rewrite dict_del_app.
+      2:{ rewrite map_app in ND. cbn in ND. apply NoDup_remove_2 in ND. intro H; apply ND. apply in_or_app; now left. }
+      cbv beta iota delta [ret].
+      assert (ND' : NoDup (map fst (pre ++ r))).
+      { rewrite map_app in *. cbn in ND. now apply NoDup_remove_1 in ND. }
+      specialize (IH pre (LB (recs l) (buff l) (dict_set k c' (chs l)) (hdr l) (logh l)) ND'). cbn [chs recs buff hdr logh] in IH.
+      destruct (record_loop _ r (dict_set k c' (chs l))); auto.
+    + eexists _, _; reflexivity.
+Qed.
+
+(* the same loop when infos is left alone (and the scalar part is appended instead) *)
+Lemma record_loop_keep (body : name * value -> unit -> M lb unit) (rc : dict -> M lb unit) :
+  (forall k z l, body (k, VInt z) tt l = (l, Ok tt)) ->
+  (forall k d l, body (k, VDict d) tt l = in_chapter k (rc d) l) ->
+  forall its l,
+    match record_loop (fun d c => opt_of (rc d c)) its (chs l) with
+    | Some cs' => forM its body tt l = (LB (recs l) (buff l) cs' (hdr l) (logh l), Ok tt)
+    | None => failed (forM its body tt l)
+    end.
+Proof.
+  intros HI HD. induction its as [|[k [z|d]] r IH]; intros l.
+  - cbn. now destruct l.
+  - cbn [record_loop forM]. unfold bind. rewrite !HI. apply IH.
+  - cbn [record_loop forM]. unfold bind. rewrite !HD. unfold in_chapter.
+    destruct (rc d (chapter_of k (chs l))) as [c' [[]|e]]; cbn [opt_of].
+    + specialize (IH (LB (recs l) (buff l) (dict_set k c' (chs l)) (hdr l) (logh l))). cbn [chs recs buff hdr logh] in IH.
+      destruct (record_loop _ r (dict_set k c' (chs l))); auto.
+    + eexists _, _; reflexivity.
+Qed.
+
+(* normal form of a monadic term applied to a state: case analysis on every call that is not a constructor *)
+Ltac mdestr :=
+  cbv beta iota zeta delta [bind ret discard];
+  repeat (match goal with
+          | |- context [match ?x with pair _ _ => _ end] =>
+              lazymatch x with (_, _) => fail | context [match _ with _ => _ end] => fail | _ => destruct x as [? [?|?]] end
+          end; cbv beta iota zeta);
+  try reflexivity.
+
+(* rewrite with an equation about a forM term that is only convertible to the one in the goal *)
+Ltac rew_forM H :=
+  match type of H with
+  | ?L = _ => match goal with |- context [forM ?a ?b ?c ?d] => change (forM a b c d) with L end
+  end; rewrite H.
+
+Lemma opt_of_failed (r : lb * res unit) : failed r -> opt_of r = None.
+Proof. intros (l & e & ->). reflexivity. Qed.
+
+Lemma gen_record_body_ok : forall uid f infos l,
+  NoDup (map fst infos) -> opt_of (gen_record_body uid f infos l) = opt_of (record_body uid f infos l).
+Proof.
+  intros uid f infos l ND. unfold gen_record_body. try reflexivity.
+  all: unfold record_body; rewrite ?dict_filter_scalars; cbv zeta.
+  all: set (rc := fun d : dict => f (dict_update d (inject (scalars infos)))).
+  all: change (record_loop _ infos (chs l)) with (record_loop (fun d c => opt_of (rc d c)) infos (chs l)).
+  all: unfold bind at 1.
+  all: first
+    [ (* infos loses its dictionary-valued keys in the loop and is appended *)
+      match goal with
+      | |- context [forM _ ?body _ _] =>
+          let H := fresh in
+          assert (H := record_loop_del body rc
+                         ltac:(intros; reflexivity) ltac:(intros; subst rc; mdestr) infos [] l ND);
+          cbn [app] in H; destruct (record_loop _ infos (chs l)) as [cs'|];
+          [ rew_forM H; unfold list_append; rewrite to_entry_filter; reflexivity
+          | destruct H as (l1 & e & H); rew_forM H; reflexivity ]
+      end
+    | (* infos is left alone, its scalar part is appended *)
+      match goal with
+      | |- context [forM _ ?body tt _] =>
+          let H := fresh in
+          assert (H := record_loop_keep body rc
+                         ltac:(intros; reflexivity) ltac:(intros; subst rc; mdestr) infos l);
+          destruct (record_loop _ infos (chs l)) as [cs'|];
+          [ rew_forM H; unfold list_append; rewrite to_entry_inject; reflexivity
+          | destruct H as (l1 & e & H); rew_forM H; reflexivity ]
+      end ].
+Qed.
+
+Lemma wf_dict_iff d : wf_dict d <-> NoDup (map fst d) /\ forall k v, In (k, v) d -> wf_value v.
+Proof.
+  unfold wf_dict. cbn [wf_value]. split; intros [ND H]; split; auto.
+  - induction d as [|[k0 v0] r IH]; cbn in *; [tauto|]. destruct H as [H0 H].
+    intros k v [E|Hin]; [injection E as <- <-; auto|]. apply IH with k; auto. now inversion ND.
+  - clear ND. induction d as [|[k0 v0] r IH]; cbn; auto. split; [apply (H k0); now left|].
+    apply IH. intros; eapply H; right; eauto.
+Qed.
+
+Lemma wf_update infos k d :
+  wf_dict infos -> In (k, VDict d) infos -> wf_dict (dict_update d (inject (scalars infos))).
+Proof.
+  intros W Hin. apply wf_dict_iff in W as [_ W]. specialize (W k _ Hin). fold (wf_dict d) in W.
+  apply wf_dict_iff in W as [ND W]. apply wf_dict_iff. split; [now apply update_NoDup|].
+  intros k' v Hv. apply dict_update_In in Hv as [Hv|Hv]; [eauto|]. cbn [snd] in Hv.
+  unfold inject in Hv. rewrite map_map in Hv. apply in_map_iff in Hv as (x & <- & _). exact I.
+Qed.
+
+Lemma record_loop_ext (f g : dict -> lb -> option lb) items cs :
+  (forall k d c, In (k, VDict d) items -> f d c = g d c) -> record_loop f items cs = record_loop g items cs.
+Proof.
+  revert cs; induction items as [|[k [z|d]] r IH]; intros cs H; cbn; auto.
+  - apply IH. intros; eapply H; right; eauto.
+  - rewrite (H k) by now left. destruct (g d (chapter_of k cs)); auto. apply IH. intros; eapply H; right; eauto.
+Qed.
+
+(* for every Python dict (keys distinct at every level): the regenerated record, run with the same fuel, is the
+   model's lb_record (None = an exception, which only running out of fuel can cause) *)
+Theorem gen_record_eq : forall fuel uid infos l,
+  wf_dict infos -> opt_of (gen_record fuel uid infos l) = lb_record fuel uid infos l.
+Proof.
+  induction fuel as [|n IH]; intros uid infos l W; [reflexivity|].
+  unfold gen_record. cbn [iter_fuel]. rewrite gen_record_body_ok by (apply wf_dict_iff in W; tauto).
+  unfold record_body. cbn [lb_record].
+  rewrite (record_loop_ext _ (fun d c => lb_record n uid (dict_update d (inject (scalars infos))) c)).
+  - destruct (record_loop _ infos (chs l)); reflexivity.
+  - intros k d c Hin. apply (IH uid). eapply wf_update; eauto.
+Qed.
+
+Definition wf_op (o : op) : Prop := match o with ORecord infos => wf_dict infos | _ => True end.
+
 (* ---- histories on the regenerated methods ---- *)
 Definition gen_step (s : state) (o : op) : state * out :=
   let l := st_lb s in
   let n := st_next s in
   match o with
+  | ORecord infos =>
+      match gen_record (S (ddepth infos)) n infos l with
+      | (l', Ok _) => (mkstate l' (S n), ONone)
+      | (_, Err _) => (s, OErr OutOfFuel)
+      end
   | OSelect p names =>
       (s, match find_path p l with
           | Some c => match gen_select names c with (_, Ok r) => OSel r | (_, Err e) => OErr e end
@@ -252,19 +420,26 @@ Fixpoint gen_run (s : state) (h : list op) : list (out * state) :=
 Definition gen_final (s : state) (h : list op) : state := fold_left (fun s o => fst (gen_step s o)) h s.
 Definition gen_outs (s : state) (h : list op) : list out := map fst (gen_run s h).
 
-Theorem gen_step_eq : forall s o, gen_step s o = step s o.
+Theorem gen_step_eq : forall s o, wf_op o -> gen_step s o = step s o.
 Proof.
-  intros s o. destruct o as [infos|path names| | |i|i|a b c| |hd|g]; cbn [gen_step step]; auto.
-  - destruct (find_path path (st_lb s)); auto. now rewrite gen_select_eq.
-  - now rewrite gen_stream_eq.
-  - now rewrite gen_pop_eq.
-  - rewrite gen_delitem_int_eq. reflexivity.
-  - rewrite gen_delitem_slice_eq. reflexivity.
+  intros s o W. destruct o as [infos|pth names| | |i|i|a b c| |hd|g]; cbn [gen_step step]; auto.
+  all: try (cbn in W; rewrite <- (gen_record_eq _ _ _ _ W);
+            destruct (gen_record (S (ddepth infos)) (st_next s) infos (st_lb s)) as [l' [[]|e]]; reflexivity).
+  all: try (destruct (find_path pth (st_lb s)); auto; now rewrite gen_select_eq).
+  all: rewrite ?gen_stream_eq, ?gen_pop_eq, ?gen_delitem_int_eq, ?gen_delitem_slice_eq; reflexivity.
 Qed.
 
-Theorem gen_run_eq : forall h s, gen_run s h = run s h.
-Proof. induction h as [|o r IH]; intro s; cbn; auto. rewrite gen_step_eq. destruct (step s o). now rewrite IH. Qed.
-Theorem gen_final_eq : forall h s, gen_final s h = final s h.
-Proof. unfold gen_final, final. induction h as [|o r IH]; intro s; cbn; auto. now rewrite gen_step_eq, IH. Qed.
-Theorem gen_outs_eq : forall h s, gen_outs s h = outs s h.
+Definition wf_hist (h : list op) : Prop := Forall wf_op h.
+
+Theorem gen_run_eq : forall h s, wf_hist h -> gen_run s h = run s h.
+Proof.
+  induction h as [|o r IH]; intros s W; cbn; auto. inversion W; subst.
+  rewrite gen_step_eq by auto. destruct (step s o). now rewrite IH.
+Qed.
+Theorem gen_final_eq : forall h s, wf_hist h -> gen_final s h = final s h.
+Proof.
+  unfold gen_final, final. induction h as [|o r IH]; intros s W; cbn; auto. inversion W; subst.
+  now rewrite gen_step_eq, IH.
+Qed.
+Theorem gen_outs_eq : forall h s, wf_hist h -> gen_outs s h = outs s h.
 Proof. intros. unfold gen_outs, outs. now rewrite gen_run_eq. Qed.
